@@ -113,13 +113,14 @@ def jobs(tier: str, seed: int) -> list[dict]:
                         params=dict(n=3, depth=0, shape='allin', hilo=True, deck=deck, levels=2, lo_levels=1,
                                     part=part, conserve=True),
                         budget_s=B, must_cover=['terminal'], prio=7))
+    B = 400 if tier == 'quick' else 1200
     if tier == 'thorough':
-        for code in button + stud:
+        for code in ('NT', 'PO', 'F7S', 'N2L1D'):
             for k, part in enumerate(weak_orders(['s0', 's1', 's2'])):
                 out.append(dict(name=f'a/{code}/n3/d1/T/w{k}', fn='h_standard',
                                 params=dict(code=code, n=3, depth=1, mode='T', deck=deck, part=part),
                                 budget_s=B, must_cover=mc))
-        for code in ('NT', 'PO', 'FT', 'F7S', 'N2L1D'):
+        for code in ('NT', 'F7S'):
             for k in range(3):
                 for k1 in range(3):
                     out.append(dict(name=f'a/{code}/n2/d3/C/k{k}{k1}', fn='h_standard',
